@@ -67,7 +67,7 @@ def run(chk):
     for i, (curve, kind, n) in enumerate([("toy31723", "mixed", 250 if q else 5000), ("toy79", "honest", 150 if q else 3000)]):
         vlib.toy_traces(chk, curve, kind, n, fl, "contract", seed_off=50 + i)
     chk.finish(
-        rule="55 fixtures per curve recorded from the reference revision (circuits with three randomized callbacks; five base statements with ten kinds of wrong statement each where applicable, "
+        rule="55 fixtures per curve, and 18 larger ones on the 256-bit curves and toy31723 (a 300-row statement, 70 commitments, a 24 + 16-gate two-phase circuit, single allocations with zero assignments next to multiplications, half-open power-of-two shapes; each with wrong statements), recorded from the reference revision (circuits with three randomized callbacks; five base statements with ten kinds of wrong statement each where applicable, "
              "circuits of 0..16 gates, two-phase circuits; secq256k1, zorro, curve25519, toy7, toy79, toy31723) are re-verified by the current code "
              "without running any prover: verdicts as recorded, bytes re-encode, token sizes as recorded; generator and Pedersen-base digests bit for "
              "bit; the reference revision's recorded toy traces are validated against the specification in full (so the specification is that "
